@@ -107,6 +107,19 @@ def parseKind (s : String) : Option Kind :=
     | _, _, _ => none
   | _ => none
 
+/-- Due clocks of the sequential op lines: a number, or an instant far away from the session — `z` (zero
+`time.Time`) and `y1600`: clock 0, i.e. due at once and before every ordinary due clock; `y2300`, `n300` (now + 300
+years), `y9999`, `u62` (`time.Unix(1<<62, 0)`): clocks that a session never reaches. -/
+def parseDue (s : String) : Option Nat :=
+  match s with
+  | "z" => some 0
+  | "y1600" => some 0
+  | "y2300" => some 1000001
+  | "n300" => some 1000003
+  | "y9999" => some 1000005
+  | "u62" => some 1000007
+  | _ => s.toNat?
+
 def parseFlags (s : String) : Flags :=
   { cancel := s.contains 'c', ignore := s.contains 'i', panic := s.contains 'p', dontWait := s.contains 'd' }
 
@@ -173,10 +186,19 @@ afterwards `Size()` is read and the queue is drained by `Poll(false)` until it r
 is the size and the elements in the order of their delivery — computed with the model's own `add`,
 `cancelElem` and `Heap.pop` (size bound victim, ties). -/
 
+/-- Due ranks of a `qseq` line: `p0` the zero `time.Time`, `p1` the year 1600 (both long past: due at once and
+before everything else), a number `r` an ordinary instant (rank `r + 2`), `f0..f3` the year 2300, now + 300 years,
+9999-12-31 and `time.Unix(1<<62, 0)` (never reached in a session). -/
+def qseqRank (t : String) : Option Nat :=
+  match t.toList with
+  | 'p' :: rest => (String.ofList rest).toNat?
+  | 'f' :: rest => (String.ofList rest).toNat?.map (· + 1000000)
+  | _ => t.toNat?.map (· + 2)
+
 def qseqOp (s : Sh) (tok : String) : Sh :=
   match tok.toList with
   | 'a' :: rest =>
-    match (String.ofList rest).toNat? with
+    match qseqRank (String.ofList rest) with
     | some rank => (add s rank none .plain s.next).1
     | none => s
   | 'c' :: rest =>
@@ -218,6 +240,7 @@ def stepLine (d : DSt) (toks : List String) : DSt × String :=
   | "sdrace" :: _ => (d, "done")
   | "cancelrace" :: _ => (d, "done")
   | "qsess" :: _ => (d, "done")
+  | "qpanic" :: _ => (d, "done")
   | "qseq" :: m :: rest =>
     match m.toNat? with
     | some m => (d, qseq m rest)
@@ -240,7 +263,7 @@ def stepLine (d : DSt) (toks : List String) : DSt × String :=
       match rest with
       | ["nop"] => let d' := opAt d now []; (d', s!"done sz={d'.cfg.1.heap.length}")
       | ["add", tag, due, kind] =>
-        match tag.toNat?, due.toNat?, parseKind kind with
+        match tag.toNat?, parseDue due, parseKind kind with
         | some tag, some due, some kind =>
           let d' := opAt d now [.add due kind tag]
           let d' := match d'.res with
@@ -268,7 +291,7 @@ def stepLine (d : DSt) (toks : List String) : DSt × String :=
           (d', answer d')
         | _, _, _, _ => (d, "bad-op")
       | ["exec", i, tag, due, kind] =>
-        match i.toNat?, tag.toNat?, due.toNat?, parseKind kind with
+        match i.toNat?, tag.toNat?, parseDue due, parseKind kind with
         | some i, some tag, some due, some kind =>
           let d' := opAt d now [.exec i due kind tag]
           let d' := match d'.res with
